@@ -28,6 +28,8 @@ def run_catalogue(chk: Check, select, algs=None, extra_flags=None):
         flags = dict(loop_budget=catalogue.loop_budget(cfg), argsort_all_ties=not cfg.get("stable_ties", False))
         flags.update(extra_flags or {})
         label = f"{cfg['alg']}/n={cfg['n']}/params={cfg['params']}"
+        if cfg.get("pin"):
+            label += "/pinned=" + ",".join(f"{i}>{v}" for i, v in sorted(cfg["pin"].items())) + f"/width<={cfg.get('width')}"
         tl = 900.0 if chk.tier == "quick" else 3600.0
         jobs.append(dict(key="prop", params=dict(cfg=cfg, select=sel, known=known), label=label, time_limit=tl, flags=flags, cfg=cfg))
     for job, r in zip(jobs, chk.explore_many(jobs)):
@@ -38,7 +40,7 @@ def run_catalogue(chk: Check, select, algs=None, extra_flags=None):
         st = seen_status.setdefault(cfg["alg"], set())
         st.update(k for k in r.acc.counts if k.startswith("status:"))
         chk.functions.add(f"nucs.propagators.{cfg['alg']}_propagator.compute_domains_{cfg['alg']}")
-        chk.bounds.setdefault(cfg["alg"], []).append(dict(arity=cfg["n"], params=cfg["params"], hull_window_D=cfg.get("D")))
+        chk.bounds.setdefault(cfg["alg"], []).append(dict(arity=cfg["n"], params=cfg["params"], hull_window_D=cfg.get("D"), **({"pinned": {str(i): v for i, v in cfg["pin"].items()}, "max_width_of_the_others": cfg.get("width")} if cfg.get("pin") else {})))
     # vacuity: every propagator must reach CONSISTENCY, and INCONSISTENCY unless it cannot fail by design
     for alg, sts in seen_status.items():
         chk.require(alg, "status:1" in sts or "status:2" in sts, "no path returned CONSISTENCY/ENTAILMENT")
